@@ -220,6 +220,24 @@ func ResetAllocBytes() {
 	runtime.ReadMemStats(&ms)
 	allocBase = ms.TotalAlloc
 }
+var allocMS runtime.MemStats
+var mallocBase uint64
+
+// AllocTrack / AllocEvents bracket a measured region (C18). Engine: number of executed operations that allocate on the
+// heap whatever escape analysis decides (growslice, make with non-constant size, mallocgc, reflect.New/MakeMap, pool miss,
+// fmt/strings helpers). Natively: MemStats.Mallocs delta (what testing.AllocsPerRun measures), used to confirm witnesses.
+func AllocTrack() {
+	runtime.ReadMemStats(&allocMS)
+	mallocBase = allocMS.Mallocs
+}
+func AllocEvents() uint64 {
+	runtime.ReadMemStats(&allocMS)
+	return allocMS.Mallocs - mallocBase
+}
+
+// AllocReps: how often the measured region is repeated (the minimum counts): 1 in the engine, 5 natively (noise).
+func AllocReps() int { return 5 }
+
 func MaxDepth() uint64      { return 0 }
 func ResetMaxDepth() uint64 { return 0 }
 func Steps() uint64         { return 0 }
